@@ -62,3 +62,49 @@ MUTANTS.update({
  "energy_floor_1e9": dict(checks=["C07"], edits=[(S, "EPSILON = 1e-10", "EPSILON = 1e-9")]),
  "neg_channel_index": dict(checks=["C07"], edits=[(U, "        if selected < 0:\n            selected += channels\n", "        if selected < 0:\n            selected += channels - 1\n            selected = max(selected, 0) if selected >= -1 else selected\n")]),
 })
+
+CM = "auditok/cmdline.py"
+MUTANTS.update({
+ "tok_start_after_silent_cut": dict(checks=["C01"], edits=[(C,
+   "                self._start_frame = self._current_frame + 1\n",
+   "                self._start_frame = self._current_frame + (0 if self._silence_length > 1 else 1)\n")]),
+ "ctor_initmin_gt": dict(checks=["C02"], edits=[(C, "        if init_min >= max_length:", "        if init_min > max_length:")]),
+ "tok_stale_sil_on_noise_cut": dict(checks=["C03"], edits=[(C,
+   "                self._silence_length = 1\n                self._data.append(frame)\n                self._state = self.POSSIBLE_SILENCE\n                if len(self._data) == self.max_length:\n                    return self._process_end_of_detection(True)\n",
+   "                self._data.append(frame)\n                self._state = self.POSSIBLE_SILENCE\n                if len(self._data) == self.max_length:\n                    return self._process_end_of_detection(True)\n                self._silence_length = 1\n")]),
+ "tok_postprocess_len": dict(checks=["C04"], edits=[(C,
+   "            if len(self._data) > 0 and len(self._data) > self._silence_length:",
+   "            if len(self._data) > 1 and len(self._data) > self._silence_length:")]),
+ "split_start_aw": dict(checks=["C05"], edits=[(C,
+   "            token[1],\n            source.block_dur,\n", "            token[1],\n            analysis_window,\n")]),
+ "revert_D1": dict(checks=["C02", "C04"], edits=[(C, "                    self._silence_length = 0\n                    self._contiguous_token = False\n", "                    self._silence_length = 0\n")]),
+ "revert_D2": dict(checks=["C02"], edits=[(C, "                elif len(self._data) >= self.max_length:\n                    # max_length is reached before init_min, back to silence\n                    self._data = []\n                    self._state = self.SILENCE\n", "")]),
+ "revert_D3": dict(checks=["C10", "C19"], edits=[(U, "            yield None\n            return\n", "            yield None\n")]),
+ "revert_D4": dict(checks=["C18"], edits=[(C, "    if data is None:\n        # nothing (left) to read: an empty region, not an error\n        data = b\"\"\n", "")]),
+ "revert_D5": dict(checks=["C06"], edits=[(C, "        min_dur, analysis_window, math.ceil, -_EPSILON\n", "        min_dur, analysis_window, math.ceil\n")]),
+ "split_two_eof": dict(checks=["C08"], edits=[(C,
+   "            if frame is None:\n                token = self._post_process()\n",
+   "            if frame is None:\n                data_source.read()\n                token = self._post_process()\n")]),
+ "alias_swap_mr": dict(checks=["C09"], edits=[(C,
+   'params["max_read"] = params.get("max_read", params.get("mr"))', 'params["max_read"] = params.get("mr", params.get("max_read"))')]),
+ "limiter_half_up": dict(checks=["C09", "C10"], edits=[(U,
+   "        self._max_samples = round(max_read * self.sr)", "        self._max_samples = int(max_read * self.sr + 0.5)")]),
+ "cli_default_aw": dict(checks=["C15"], edits=[(CM,
+   '            dest="analysis_window",\n            default=0.01,', '            dest="analysis_window",\n            default=0.05,')]),
+ "fmt_round": dict(checks=["C15"], edits=[(U,
+   "            millis = int(seconds * 1000)\n            hrs, millis", "            millis = round(seconds * 1000)\n            hrs, millis")]),
+ "seconds_round_start": dict(checks=["C16"], edits=[(C, "        start_sample = int(start_s * sr)", "        start_sample = round(start_s * sr)")]),
+ "eq_ignore_sr": dict(checks=["C17"], edits=[(C, "            (self.data == other.data)\n            and (self.sr == other.sr)\n", "            (self.data == other.data)\n")]),
+ "load_skip_int": dict(checks=["C18"], edits=[(C,
+   "        skip_samples = round(skip * audio_source.sampling_rate)", "        skip_samples = int(skip * audio_source.sampling_rate)")]),
+ "recorder_pos": dict(checks=["C19"], edits=[(U,
+   "        if record:\n            input = _Recorder(input)\n        if max_read is not None:\n            input = _Limiter(input, max_read)\n            self._max_read = max_read\n",
+   "        if max_read is not None:\n            input = _Limiter(input, max_read)\n            self._max_read = max_read\n        if record:\n            input = _Recorder(input)\n")]),
+ "tok_reinit_flag": dict(checks=["C20"], edits=[(C,
+   "    def _reinitialize(self):\n        self._contiguous_token = False\n", "    def _reinitialize(self):\n")]),
+ # negative controls (behaviourally equivalent)
+ "eq_limiter_size_lt0": dict(equivalent=True, checks=["C10", "C19", "C09"], edits=[(U, "        if size <= 0:\n            return None\n        block = self._audio_source.read(size)", "        if size < 0 or size == 0:\n            return None\n        block = self._audio_source.read(size)")]),
+ "eq_to_array_reshape": dict(equivalent=True, checks=["C07", "C18"], edits=[(S, '    return array.reshape(channels, -1, order="F")', "    return array.reshape(-1, channels).T")]),
+ "eq_close_before_stop": dict(equivalent=True, checks=["C12", "C13", "C14"], edits=[(W,
+   "        self._notify_observers(_STOP_PROCESSING)\n        self._reader.close()", "        self._reader.close()\n        self._notify_observers(_STOP_PROCESSING)")]),
+})
